@@ -43,6 +43,17 @@ Judge(e) ==
     [] n = "SameFunction"     -> Fails({<<"result_consistent", ConsistentCurve(AsC(e.d))>>,
                                      <<"same_function", ConsistentCurve(AsC(e.d)) =>
                                          ObservedEquals(AsC(e.c), e.dv, CommonBreaks(e.c.U, e.d.U), Deg(e.c.U) + Deg(e.d.U))>>})
+    [] n = "EvalObs"          -> Fails({<<"value_is_definition", ConsistentCurve(AsC(e.c)) =>
+                                       \A i \in DOMAIN e.dv : e.dv[i][2] = Eval(AsC(e.c), e.dv[i][1])>>})
+    [] n = "BasisObs"         -> LET U == e.act.kv W == e.act.weights j == e.act.j u == e.act.u
+                                     row == IF W = <<>> THEN [i \in 1..(Len(U) - j - 1) |-> NN(U, LastSpan(U), i - 1, j, u)]
+                                            ELSE RationalRow(U, W, j, u) IN
+                                 Fails({<<"row_is_cox_de_boor", \A i \in DOMAIN row : i \in DOMAIN e.act.row => e.act.row[i] = row[i]>>,
+                                        <<"rows_beyond_vanish", \A i \in (Len(row) + 1)..Len(e.act.row) : e.act.row[i] = Zero>>})
+    [] n = "IntegObs"         -> Fails({<<"integral_is_closed_form", e.act.value = IntegralClosedForm(AsC(e.c))>>})
+    [] n = "EqObs"            -> LET r == SameFunction3(AsC(e.c), AsC(e.b)) IN
+                                 Fails({<<"eq_iff_same_function", (r = "yes" => e.act.eq) /\ (r = "no" => ~e.act.eq)>>,
+                                        <<"?eq_unknown", r # "unknown">>})
     [] n = "DriverError"      -> {"operation_raised_unexpectedly"}
     [] n = "CvFitCurve"       -> FitCurveClauses(AsC(e.c), e.act.kv, e.act.nodes, AsC(e.d), e.act.err)
     [] n = "CvFitCurve2"      -> FitCurve2Clauses(AsC(e.c), AsC(e.b), e.act.kv, e.act.nodes, AsC(e.d), AsC(e.act.d2), e.act.err)
